@@ -6,6 +6,8 @@
   S2  exhaustion threshold per total-height partition (shared with C05-A1): 2^t - 1 for t <= 63, never for t >= 64
   S3  decomposition structure (shared with C03-P2): per level the same level's height is used for mask and shift,
       bottom-up, element index = level index, starting from the counter
+  S5  no silent loss of value: narrowing casts / wrapping ops / narrow saturating ops in the accounting functions
+      are shown by interval analysis to be exact; only saturation at the width of the reported lifetime is permitted
   S4  lifetime structure: levels visited bottom-up; the factor applied to a level's free-leaf count has no
       intra-iteration dependence on that level's own size (it is the product of the *lower* levels only);
       the free-leaf count is size minus used index of the same level; one accumulation per level
@@ -180,6 +182,28 @@ def lifetime_rules(chk, F, an, tag):
            "the free-leaf count is not (level size - used index) of one and the same level item: %s" % [(a, b_) for _, a, b_ in subs][:1], where=lt.loc())
 
 
+def lossy_rules(chk, F, an_ia, an, entries, tag):
+    """S5: inside the accounting functions no value may be silently lost: narrowing casts whose operand can
+    exceed the target, wrapping operations that can wrap, and saturating operations narrower than the reported
+    result (u64) whose exact result can exceed their width.  Saturation at the width of the lifetime result is
+    the documented cap of the reported number and is the one permitted loss."""
+    tree = F.reachable(entries)
+    lt = an["lifetime"]
+    ret_ty = lt.j["output"]["s"]
+    n = 0
+    for (fp, kind, ty), (exact, rng) in sorted(an_ia.lossy_obs.items()):
+        if fp not in tree:
+            continue
+        f = F.fns[fp]
+        n += 1
+        permitted = kind.startswith("saturating_") and fp == lt.path and ty == ret_ty
+        chk.ob("S5.no-silent-loss", "%s|%s|%s%s" % (f.key, kind, ty, tag), permitted,
+               "in %s a %s producing %s can lose value: the exact result ranges over %s but the type holds %s "
+               "(a count that silently saturates / wraps / truncates below the 64-bit result makes the selected leaves or the reported lifetime wrong for large key shapes)"
+               % (f.path, kind, ty, exact if exact[1] < 2**130 else (exact[0], ">2^130"), rng), where=f.loc())
+    chk.count("lossy_operations_examined", n)
+
+
 def run_config(chk, ctx, name):
     F = ctx.facts(name)
     A = Api(F)
@@ -189,7 +213,8 @@ def run_config(chk, ctx, name):
     chk.note("%s: decomposition %s, increment %s, lifetime %s" % (name, an["decomposition"].path, an["inc"].path, an["lifetime"].path))
     # S1
     entries = [an["decomposition"].path, an["inc"].path, an["key_inc"].path, an["lifetime"].path]
-    pf.run(chk, F, A, entries, "accounting:" + name, allow_recursion=(), tag=tag, partitions="assoc")
+    sites, an_ia = pf.run(chk, F, A, entries, "accounting:" + name, allow_recursion=(), tag=tag, partitions="assoc")
+    lossy_rules(chk, F, an_ia, an, entries, tag)
     # S2
     c05.threshold_rules(chk, F, an, tag, prefix="S2")
     # S3
